@@ -344,6 +344,6 @@ def check_frame(eng, c, old_heap, penv, line):
         if allowed is True:
             continue
         r = z3.Int('r!fr')
-        cond = [r >= 1, r < p.next0] + [r != a for a in allowed]
+        cond = [r >= 1, r < p.next0] + eng.frame_conds(allowed, r)
         goal = z3.ForAll([r], z3.Implies(z3.And(*cond), z3.Select(arr, r) == z3.Select(old, r)))
         eng.prove(f'{c.vname}::frame[{key}]', goal, line=line)
